@@ -39,7 +39,7 @@ def main(tier, only=None):
         global ONLY
         ONLY = only
     results = runner.run_items(MOD, tier)
-    results, st = gridprop.split_selftest(results)
+    results, st = gridprop.split_selftest(results, ID)
     enga.init()
     from autograd.core import primitive_vjps
 
